@@ -6,11 +6,28 @@ HERE = os.path.dirname(os.path.dirname(os.path.abspath(__file__)))
 BASE_OFF = "cd /repo && cargo test --workspace --no-fail-fast --offline"
 
 # id -> (technique, level text, level note, design ref)
+PBT = "property-based testing (proptest, seeded, shrinking)"
 CLAIMED = {
- "C04": ("property-based testing (proptest): generated operation histories in lock-step against a Vec+capacity reference model; libFuzzer byte histories in the thorough tier",
+ "C01": (PBT + ": differential against a reference Push interpreter written from the documented semantics - single instructions on boundary states, generated programs in lock-step and under a sweep of step limits",
+         "Exploration: hundreds of thousands (quick) to millions (thorough) of generated single-instruction states and programs; every executed instruction and every sampled step limit compared with the reference model (all four stacks, output, outcome kind). Does not establish absence.",
+         "Trusted: the reference model in harness/src/model/vm.rs (DESIGN Appendix A), std Display and `as` int->float. Double faults and Power with exponent > u32::MAX accept two outcomes.",
+         "DESIGN.md §2 C01, Appendix A"),
+ "C02": (PBT + ": model-free before/after state equality on every failing instruction, exhaustive enumeration of stack shapes per instruction, L vs L+1 step-limit metamorphic relation on the real interpreter loop",
+         "Exploration with an exhaustive component: for every instruction all 4096 stack shapes (sizes 0..3 x slack 0/1 per stack) are enumerated (values random), plus generated boundary states and programs. Does not establish absence for values.",
+         "Trusted: PushState's Eq (all stacks, inputs, output cursor, limits) plus bitwise float comparison.",
+         "DESIGN.md §2 C02"),
+ "C03": (PBT + ": growth/looping/nesting/blow-up program templates under tiny stack limits and large step limits, differential reference model plus invariants (no panic, sizes <= maxima, only overflow aborts, exactly min(limit, steps-to-halt) steps), watchdog for hangs",
+         "Exploration: thousands (quick) to hundreds of thousands (thorough) of adversarial programs, up to 20000 steps each, nests up to depth 200/3000. A hang is reported as inconclusive (exit 2), never as a violation.",
+         "Trusted: reference model; nests deeper than the stated bound are out of scope.",
+         "DESIGN.md §2 C03"),
+ "C04": (PBT + ": generated operation histories in lock-step against a Vec+capacity reference model",
          "Exploration: tens of thousands (quick) to millions (thorough) of generated stack histories, every operation compared against a reference model; failures shrunk to a minimal history. Does not establish absence.",
          "Trusted: proptest, the harness's Vec-based model, rustc. Zero-element insertion above a lowered maximum and is_full above the maximum are deliberately unconstrained.",
          "DESIGN.md §2 C04"),
+ "C05": (PBT + ": exhaustive small-scope enumeration of gene-class sequences plus random genomes; structural predicates on the real output and equality with an independent iterative reference parser",
+         "Exploration with an exhaustive component: all 4^n gene-class sequences for n <= 8 (quick) / 10 (thorough) are enumerated completely; random genomes up to 2000 genes beyond that.",
+         "Trusted: the reference parser in harness/src/gen_vm.rs; opening counts (IfElse 2, When/Unless/DupBlock 1) are taken from the property statement, not from the crate.",
+         "DESIGN.md §2 C05"),
 }
 NOT_YET = "check not built yet in this revision (work in progress; see DESIGN.md §2 for the planned generated-input check)"
 
